@@ -1,5 +1,5 @@
 (* C04 — routing: first matching host, then first matching route, else default, else 404. Property theorems only. *)
-From Hv Require Import Prelude Krauss KraussProofs Routing RoutingProofs.
+From Hv Require Import Prelude Krauss KraussProofs Routing RoutingProofs RoutingCorollaries.
 Open Scope N_scope.
 
 (* The selection made by get_handler (and, over websocket_routes, by call_websocket_handler, which has the same shape)
@@ -35,6 +35,35 @@ Theorem C04_rule_is_deterministic :
     Routes subapps default host uri c1 -> Routes subapps default host uri c2 -> c1 = c2.
 Proof. exact routes_deterministic. Qed.
 
+(* What someone registering routes relies on (corollaries of the rule). Without a Host header only the default
+   application is consulted; a route or host registered later never takes a request away from one registered earlier; a
+   matching host none of whose routes match falls through to the default application, never to another host. *)
+Theorem C04_no_host_header_uses_default :
+  forall subapps default uri,
+    get_handler subapps default None uri =
+    match find_index (fun r => wildcard_match r uri) (sa_routes default) 0 with
+    | Some (j, _) => Some (InDefault j) | None => None end.
+Proof. exact no_host_header_uses_default. Qed.
+
+Theorem C04_later_default_route_does_not_shadow :
+  forall subapps h routes more uri j,
+    get_handler subapps {| sa_host := h; sa_routes := routes |} None uri = Some (InDefault j) ->
+    get_handler subapps {| sa_host := h; sa_routes := routes ++ more |} None uri = Some (InDefault j).
+Proof. exact later_default_route_does_not_shadow. Qed.
+
+Theorem C04_later_host_does_not_shadow :
+  forall subapps more default h uri i j,
+    get_handler subapps default (Some h) uri = Some (InSub i j) ->
+    get_handler (subapps ++ more) default (Some h) uri = Some (InSub i j).
+Proof. exact later_host_does_not_shadow. Qed.
+
+Theorem C04_host_without_route_falls_to_default :
+  forall subapps default h uri i s,
+    find_index (fun s => wildcard_match (sa_host s) h) subapps 0 = Some (i, s) ->
+    find_index (fun r => wildcard_match r uri) (sa_routes s) 0 = None ->
+    get_handler subapps default (Some h) uri = get_handler subapps default None uri.
+Proof. exact host_without_route_falls_to_default. Qed.
+
 (* Non-vacuity: shadowing, fall-through to default and 404. *)
 Example C04_examples :
   let a := {| sa_host := [42;46;120]; sa_routes := [[47;97;42]; [47;42]] |} in   (* host *.x : /a*, /* *)
@@ -48,6 +77,10 @@ Example C04_examples :
 Proof. vm_compute. repeat split. Qed.
 
 Print Assumptions C04_get_handler_follows_rule.
+Print Assumptions C04_no_host_header_uses_default.
+Print Assumptions C04_later_default_route_does_not_shadow.
+Print Assumptions C04_later_host_does_not_shadow.
+Print Assumptions C04_host_without_route_falls_to_default.
 Print Assumptions C04_ws_dispatch_follows_rule.
 Print Assumptions C04_ws_dispatch_ignores_http_routes.
 Print Assumptions C04_rule_is_deterministic.
